@@ -12,7 +12,7 @@ LEMMAS = {
     'C07': ['vspec::lemma_frame_enc_len', 'vspec::lemma_full_frame_ends_block', 'vspec::enc', 'vspec::lemma_enc_len_bound', 'frame::header::lemma_hdr_roundtrip',
             'vroundtrip::lemma_blocks_of', 'vroundtrip::lemma_read_written_frame', 'vroundtrip::lemma_read_written_record', 'vroundtrip::lemma_roundtrip_all'],
     'C08': ['frame::header::lemma_hdr_roundtrip'],
-    'C09': ['vdamage::lemma_damaged_frame', 'vdamage::lemma_skip_frames', 'vdamage::lemma_damaged_record', 'vdamage::lemma_one_damaged_entry', 'vdamage::lemma_replay_log_is_fold', 'vdamage::lemma_one_damaged_entry_replay', 'vdamage::lemma_read_all_intact', 'visol::lemma_replay_isolation', 'visol::lemma_lost_entry_other_queues'],
+    'C09': ['vdamage::lemma_damaged_frame', 'vdamage::lemma_skip_frames', 'vdamage::lemma_damaged_record', 'vdamage::lemma_one_damaged_entry', 'vdamage::lemma_replay_log_is_fold', 'vdamage::lemma_one_damaged_entry_replay', 'vdamage::lemma_read_all_intact', 'visol::lemma_replay_isolation', 'visol::lemma_lost_entry_other_queues', 'visol::lemma_truncate_members', 'visol::lemma_items_members', 'visol::lemma_entry_covers', 'visol::lemma_replay_covers', 'visol::lemma_lost_entry_same_queue'],
     'C10': ['vspec::lemma_frame_step_progress', 'vspec::rec_step', 'vspec::lemma_rec_step_progress', 'vfs::lemma_all_blocks_ok', 'vfs::lemma_block_at'],
     'C11': ['vspec::lemma_frame_step_progress', 'vspec::lemma_rec_step_progress', 'vfs::lemma_blocks_below_skip', 'vfs::lemma_blocks_below_step'],
     'C12': ['vspec::lemma_parse_ser_items', 'vspec::lemma_rec_step_progress', 'vtorn::lemma_zeros_end', 'vtorn::lemma_torn_frame', 'vtorn::lemma_torn_record', 'vtorn::lemma_torn_tail', 'vdamage::lemma_read_all_of_prefix', 'vdamage::lemma_torn_tail_replay'],
@@ -112,7 +112,7 @@ PROPS = {
                 'Mechanism level: on CRC mismatch the cursor advances by exactly 7+len and the block is kept (frame_step Corrupt arm, O-C08-step); '
                 'replay tolerance: ack_position implements log_ack (O-C09-ack), gaps in positions accepted (O-C05-append), unknown DeleteQueue ignored (P-C01-replay-delete).',
         kani_quick=[], kani_thorough=['E-dmg'],
-        trusted=[FS], not_decided=['the last step of the history-level statement: that the replay of the history minus one entry retains every record whose append was not hit (follows from the replay tolerance rules O-C09-ack / gaps accepted, not composed into one lemma)'],
+        trusted=[FS], not_decided=['that open SUCCEEDS when one entry of a valid history is lost (the replay rule rejects an entry whose position is in the past): bounded, E-dmg (delete + re-create, truncations, gaps); given success, the history-level statement is proved (spec/visol.rs: lemma_lost_entry_other_queues -- every other queue is recovered exactly; lemma_lost_entry_same_queue -- the hit queue keeps every record the lost entry did not write)'],
     ),
     'C10': dict(
         level='proof',
